@@ -243,7 +243,7 @@ class Model:
 def run(ctx):
     model = Model(ctx.tier)
     depth = 40
-    res = explore.explore(model, ctx, depth)
+    res = explore.explore(model, ctx, depth, validate_canon=0 if ctx.tier == "quick" else 300)
     idepth = 4 if ctx.tier == "quick" else 6
     res2 = explore.explore(Model(ctx.tier, interest=True), ctx, idepth, label="A-interest")
     ctx.coverage["interest_configs"] = {k: res2[k] for k in ("states", "transitions", "depth_completed", "fixpoint", "roots")}
